@@ -26,6 +26,16 @@ var pairs = []pair{
 	// ids that contain formatting directives are ordinary, distinct ids (an id must never be used as a format)
 	{"acme%2Forders", "acme%3Forders"},
 	{"t%s", "t%v"},
+	// very long ids that differ only at the end (hierarchical tenant paths): no length limit may fold them together
+	{longID("x"), longID("y")},
+}
+
+func longID(tail string) string {
+	b := make([]byte, 300)
+	for i := range b {
+		b[i] = 'a' + byte(i%26)
+	}
+	return string(b) + tail
 }
 
 // Sessions: a record produced for Q handed to a session for P (same factory, store, caches).
